@@ -204,6 +204,7 @@ def c_lints(ctx, P, scope, rule="C-LINT", tus=None):
                 why = "parameter(s) %s never read and not marked TSK_UNUSED" % unused
             ctx.ob(rule, fn.name, ok, where, why)
     copy_paste(ctx, P, scope, tus=tus)
+    dead_stores(ctx, P, scope, tus=tus)
     return n
 
 
@@ -278,4 +279,38 @@ def copy_paste(ctx, P, scope, rule="COPY-PASTE", tus=None):
                                "`%s` is renamed to %s at some positions but kept at others: `%s` after `%s`" % (bad[0], bad[1], estr(s2)[:110], estr(s1)[:110]))
                         k += 1
     ctx.ob(rule, "pairs", True, "(scope)", "%d same-shape statement pairs examined" % n)
+    return n
+
+
+def dead_stores(ctx, P, scope, rule="C-DEAD-STORE", tus=None):
+    ctx.rule(rule, "no local variable of this property's C functions is only ever written (assigned but never read): a value that is "
+                   "computed and then ignored means a later statement uses the wrong variable or a step was dropped")
+    n = 0
+    for key in (tus or LIB_TUS + ["kastore", "module"]):
+        tu = P.tus[key]
+        for fn in tu.funcs.values():
+            if not scope(key, fn.name):
+                continue
+            decl = {x.name for x in walk(fn.body) if x.k == "VarDecl"}
+            if not decl:
+                continue
+            par = {}
+            for x in walk(fn.body):
+                for c in x.kids:
+                    if c is not None:
+                        par[id(c)] = x
+            reads, writes = set(), {}
+            for x in walk(fn.body):
+                if x.k == "DeclRefExpr" and x.ref in decl:
+                    p, q = par.get(id(x)), x
+                    while p is not None and p.k == "ParenExpr":
+                        q, p = p, par.get(id(p))
+                    if p is not None and p.k == "BinaryOperator" and p.op == "=" and p.kids[0] is q:
+                        writes.setdefault(x.ref, x)
+                    else:
+                        reads.add(x.ref)
+            dead = sorted(v for v in writes if v not in reads)
+            n += 1
+            ctx.ob(rule, fn.name, not dead, tu.loc(writes[dead[0]]) if dead else tu.loc(fn.node),
+                   "every assigned local is read" if not dead else "local(s) %s assigned but never read" % dead)
     return n
